@@ -60,6 +60,44 @@ def enumerate_paths(fn, max_paths=20000, start=0, stop_at=None):
     return out, pr
 
 
+def region_paths(fn, start, stop_at, removed=(), max_paths=2000):
+    """acyclic paths from `start` to a block of `stop_at` (or a return / diverging block), not taking the (block, label) edges
+    in `removed`; a cycle that avoids `stop_at` makes the region unanalysable.  Usable inside functions with loops (one
+    iteration of an innermost loop: start = first body block, stop_at = {header})."""
+    cfg = fn.cfg
+    pr = P.Prov(fn)
+    removed = set(removed)
+    out = []
+    stack = [(start, [start], [])]
+    while stack:
+        b, blocks, conds = stack.pop()
+        term = fn.blocks[b]["term"]
+        k = term["k"]
+        if b in stop_at and len(blocks) > 1:
+            out.append(Path(blocks, conds, "stop", b))
+            continue
+        if k == "return":
+            out.append(Path(blocks, conds, "return", b))
+            continue
+        if k == "unreachable":
+            out.append(Path(blocks, conds, "unreachable", b))
+            continue
+        succ = [(lab, tgt) for (lab, tgt) in cfg.succ_edges[b] if (b, lab) not in removed]
+        if not succ:
+            out.append(Path(blocks, conds, "diverge", b))
+        for (lab, tgt) in succ:
+            if tgt in blocks and tgt not in stop_at:
+                raise Unanalysable(f"cycle inside the region in {fn.path}")
+            if k == "switch":
+                others = [v for v, _ in term["arms"]] if lab == "otherwise" else None
+                stack.append((tgt, blocks + [tgt], conds + [(b, pr.operand(term["on"]), lab, term["ty"], others)]))
+            else:
+                stack.append((tgt, blocks + [tgt], conds))
+        if len(out) > max_paths:
+            raise Unanalysable(f"too many paths in {fn.path}")
+    return out
+
+
 def last_assign(fn, path, local, pr):
     """term of the last full assignment to `local` along the path (None if none)."""
     res = None
